@@ -20,6 +20,9 @@ from .shared import path_conditions, enclosing
 from . import c01, shared
 
 
+NEEDS_READER = True  # the attached bit-order clause reads the netlisters' conventions
+
+
 def check(repo: Repo, R) -> None:
     R.run(slice_inner, repo, R, "C03")
     R.run(inner_properties, repo, R)
@@ -33,6 +36,8 @@ def check(repo: Repo, R) -> None:
     # slice directly on a signal) is refused by the exporter rather than written as a forward range
     from . import c02 as _c02
     from . import shared as _sh
+    R.run(c01.bit_order, repo, _sh.Retag(R, lambda r, k: "C03.9-resolution-keeps-bit-sequence" if k.endswith("every-part-alike") else None,
+                                        "a nested concatenation that reaches the exporter (a full-width slice of a Concat) is written inline in forward order: its parts come out swapped, widths unchanged"))
     R.run(c01.slice_resolution, repo, _sh.Retag(R, lambda r, k: "C03.9-resolution-keeps-bit-sequence" if any(x in k for x in ("concat-order", "::tail-", "flat-case", "_resolve_rest", "leading-slice-listed")) else None,
                                                "flattening a nested concatenation permutes its parts: Concat(Concat(a, b), c) is exported as c, a, b (same width, nothing notices)"))
     R.run(_c02.export_slice_guards, repo, _sh.Retag(R, lambda r: "C03.9-resolution-keeps-bit-sequence",
